@@ -6,7 +6,7 @@ package scanner
 
 /*@
 // the source text and the scanner's configuration are fixed once the scanner exists
-immutable scanner.Scanner.src scanner.Scanner.mode scanner.Scanner.file []uint8
+immutable scanner.Scanner.src scanner.Scanner.mode scanner.Scanner.file []byte
 
 spec srcEnd(s *Scanner) int := off(s.src) + len(s.src)
 // position bookkeeping: cur is inside the text and on a code point boundary of well-formed UTF-8
@@ -217,7 +217,10 @@ func (*Scanner).aliasParameter [C13, C03]
   ensures J(s) && s.cur >= old(s.cur) && s.start == old(s.start)
   ensures result.Type == token.ALIAS_PARAMETER
   ensures result.Literal == stringOf(subslice(s.src, s.start, s.cur))
-  loop 0 invariant J(s) && s.cur >= old(s.cur) && s.start == old(s.start)
+  ensures result.Range.Start.Line == s.startLine && result.Range.Start.Column == s.startColumn
+  ensures result.Range.End.Line == s.line && result.Range.End.Column == s.column
+  ensures P(s)
+  loop 0 invariant J(s) && s.cur >= old(s.cur) && s.start == old(s.start) && s.startLine == old(s.startLine) && s.startColumn == old(s.startColumn)
   loop 0 decreases len(s.src) - s.cur
 
 spec firstRune(s *Scanner) int := utf8.runeA(arr(s.src), off(s.src) + s.start)
